@@ -34,7 +34,7 @@ INT = {"min": [[-1], [0], [2]], "max": [[-1], [0], [2]]}
 # once rounded at precision 1 (a refinement that compares "as the validator would" goes wrong there)
 FLOAT = {"min": [[-1.0], [0.5], [2.0], [0.54], [1.3]], "max": [[-1.0], [0.5], [2.0], [0.46], [1.2]],
          "precision": [[1], [3]]}
-STR = {"len": LEN_FORMS, "alphabet": [["ab"], ["a"], [""]], "contains": [["a"], ["ab"], ["c"], [""]],
+STR = {"len": LEN_FORMS, "alphabet": [["ab"], ["a"], [""]], "contains": [["a"], ["ab"], ["ba"], ["aa"], ["c"], [""]],
        "regex": [["a"], ["^ab$"], ["c+"], [""]]}
 LIST = {"len": LEN_FORMS}
 BASES = {
